@@ -124,13 +124,10 @@ func c12Local(c *an.Ctx) {
 				return false
 			},
 			BarrierEdge: func(from, to *ssa.BasicBlock) bool {
-				cnd, t, ok := an.EdgeCond(from, to)
-				if !ok {
-					return false
-				}
-				r := an.Normalize(cnd, t)
-				// err != nil edge of this acquire
-				return r.Op == token.NEQ && r.X == ssa.Value(site.call) && an.IsNil(r.Y)
+				return an.EdgeHolds(from, to, func(r an.Rel) bool {
+					// err != nil edge of this acquire
+					return r.Op == token.NEQ && r.X == ssa.Value(site.call) && an.IsNil(r.Y)
+				})
 			}}.Find()
 		c.Check("K3", key+":released", s.call.Pos(), w == nil,
 			"after a successful Acquire every path to the end of the job closure must release the same semaphore with the same amount; "+c.WitnessString(w))
@@ -508,12 +505,9 @@ func c12Remote(c *an.Ctx) {
 			return len(call.Call.Args) == 2 && call.Call.Args[1] == ssa.Value(endJob.Params[1])
 		},
 		BarrierEdge: func(from, to *ssa.BasicBlock) bool {
-			cnd, t, ok := an.EdgeCond(from, to)
-			if !ok {
-				return false
-			}
-			r := an.Normalize(cnd, t)
-			return r.Op == token.EQL && an.LoadsField(r.X, jobSem) && an.IsNil(r.Y)
+			return an.EdgeHolds(from, to, func(r an.Rel) bool {
+				return r.Op == token.EQL && an.LoadsField(r.X, jobSem) && an.IsNil(r.Y)
+			})
 		}}.Find()
 	c.Check("K3", "endJob:releases-slot", endJob.Pos(), w == nil,
 		"endJob must release the job's slot whenever a semaphore exists; "+c.WitnessString(w))
